@@ -265,9 +265,10 @@ class TheoryOracle(walkers.DagWalker):
     @walkers.handles([op.STR_LENGTH, op.STR_INDEXOF, op.STR_TO_INT])
     def walk_str_int(self, formula: FNode, args: List[Theory], **kwargs) -> Theory:
         theory_out = self.walk_combine(formula, args, **kwargs)
-        theory_out.integer_arithmetic = True
-        theory_out.integer_difference = True
-        return theory_out
+        # The result is an integer: combine (rather than overwrite) so that
+        # an integer argument that is not in DL keeps the theory out of DL
+        int_theory = Theory(integer_arithmetic=True, integer_difference=True)
+        return theory_out.combine(int_theory)
 
     def walk_bv_tonatural(self, formula: FNode, args: List[Theory], **kwargs) -> Theory:
         #pylint: disable=unused-argument
@@ -291,7 +292,10 @@ class TheoryOracle(walkers.DagWalker):
         return theory_out
 
     def walk_pow(self, formula: FNode, args: List[Theory], **kwargs) -> Theory:
-        return args[0].set_linear(False)
+        theory_out = args[0].set_linear(False)
+        # This is  not in DL anymore
+        theory_out = theory_out.set_difference_logic(False)
+        return theory_out
 
     def walk_plus(self, formula: FNode, args: List[Theory], **kwargs) -> Theory:
         theory_out = args[0]
@@ -342,8 +346,6 @@ class TheoryOracle(walkers.DagWalker):
             theory_out = theory_out.set_linear(False)
         else:
             theory_out = theory_out.combine(args[1])
-        return theory_out
-
         # This is  not in DL anymore
         theory_out = theory_out.set_difference_logic(False)
         return theory_out
